@@ -78,6 +78,9 @@ struct CBack {
   template <class SM> static void drain(SM& f, int max) {
     if (max == 0) f.execute_queued_events(); else if (f.get_message_queue_size() > 0) f.execute_single_queued_event(); }
 };
+struct CBackCirc : CBack {
+  template <class Front, class Hi> using sm = msm::back::state_machine<Front, typename BackHist<Hi>::type, msm::back::queue_container_circular>;
+};
 struct CBackFct {
   template <class F, class SM> static bool flag_or(SM& f) { return CBack::flag_or<F>(f); }
   template <class F, class SM> static bool flag_and(SM& f) { return CBack::flag_and<F>(f); }
@@ -97,6 +100,9 @@ struct CBack11 {
   template <class SM, class S> static int id() { return msm::back::get_state_id<typename SM::stt, S>::value; }
   template <class SM> static void drain(SM& f, int max) {
     if (max == 0) f.execute_queued_events(); else if (f.get_message_queue_size() > 0) f.execute_single_queued_event(); }
+};
+struct CBack11Circ : CBack11 {
+  template <class Front, class Hi> using sm = msm::back11::state_machine<Front, void, typename BackHist<Hi>::type, msm::back::queue_container_circular>;
 };
 #else
 template <class Front, class Cfg> struct Mp11Sm : msm::backmp11::state_machine<Front, Cfg, Mp11Sm<Front, Cfg>> {
